@@ -95,8 +95,10 @@ ROWWISE_MISC = ["NgramCase", "SkipgramCase", "LZCase", "BPECase", "HistogramCase
 PLANS["C12"] = {
     "quick": [
         {"name": "H-interp-all", "layer": "H", "mode": "interp", "runs": 10500, "workers": 7, "budget_s": 170},
-        {"name": "H-interp-ot", "layer": "H", "mode": "interp", "variant": "ot", "runs": 2400, "workers": 4, "budget_s": 170,
+        {"name": "H-interp-ot", "layer": "H", "mode": "interp", "variant": "ot", "runs": 1200, "workers": 2, "budget_s": 170,
          "params": {"families": ["WassersteinCase"]}},
+        {"name": "H-interp-ot-2thr", "layer": "H", "mode": "interp", "variant": "ot2", "runs": 1200, "workers": 2, "budget_s": 170,
+         "params": {"families": ["WassersteinCase"]}, "env": {"NUMBA_NUM_THREADS": 2}},
         {"name": "H-jit-ot", "layer": "H", "mode": "jit", "variant": "ot", "runs": 48, "workers": 2, "budget_s": 170,
          "params": {"families": ["WassersteinCase"]}, "env": {"NUMBA_NUM_THREADS": 4}},
         {"name": "H-jit-misc-a", "layer": "H", "mode": "jit", "variant": "misca", "runs": 700, "workers": 1, "budget_s": 170,
@@ -106,8 +108,10 @@ PLANS["C12"] = {
     ],
     "thorough": [
         {"name": "H-interp-all", "layer": "H", "mode": "interp", "runs": 400000, "workers": 7, "budget_s": 2600},
-        {"name": "H-interp-ot", "layer": "H", "mode": "interp", "variant": "ot", "runs": 200000, "workers": 4, "budget_s": 2600,
+        {"name": "H-interp-ot", "layer": "H", "mode": "interp", "variant": "ot", "runs": 100000, "workers": 2, "budget_s": 2600,
          "params": {"families": ["WassersteinCase"]}},
+        {"name": "H-interp-ot-2thr", "layer": "H", "mode": "interp", "variant": "ot2", "runs": 100000, "workers": 2, "budget_s": 2600,
+         "params": {"families": ["WassersteinCase"]}, "env": {"NUMBA_NUM_THREADS": 2}},
         {"name": "H-jit-ot", "layer": "H", "mode": "jit", "variant": "ot", "runs": 200000, "workers": 2, "budget_s": 2600,
          "params": {"families": ["WassersteinCase"]}, "env": {"NUMBA_NUM_THREADS": 4}},
         {"name": "H-jit-misc-a", "layer": "H", "mode": "jit", "variant": "misca", "runs": 100000, "workers": 1, "budget_s": 2600,
